@@ -288,7 +288,7 @@ class Ctx:
 
     # ---- verdicts ------------------------------------------------------
     def save_replay(self, name, content):
-        d = os.path.join(VERIF, "replays")
+        d = os.path.join(os.environ.get("VERIF_OUT", VERIF), "replays")
         os.makedirs(d, exist_ok=True)
         p = os.path.join(d, "%s-%s-%s.json" % (self.prop, name, hashlib.sha1(
             (content if isinstance(content, str) else json.dumps(content, sort_keys=True)).encode()).hexdigest()[:10]))
@@ -346,8 +346,9 @@ def finish(ctx, level, coverage, assumptions):
     ev = {"property_id": ctx.prop, "tier": ctx.tier, "seed": ctx.seed, "level": level, "coverage": cov,
           "assumptions": assumptions + ctx.assumptions, "wall_s": round(time.time() - ctx.t0, 2),
           "violations": len(real)}
-    os.makedirs(os.path.join(VERIF, "evidence"), exist_ok=True)
-    with open(os.path.join(VERIF, "evidence", ctx.prop + ".json"), "w") as f:
+    out = os.environ.get("VERIF_OUT", VERIF)     # (self-validation runs against patched copies write elsewhere)
+    os.makedirs(os.path.join(out, "evidence"), exist_ok=True)
+    with open(os.path.join(out, "evidence", ctx.prop + ".json"), "w") as f:
         json.dump(ev, f, indent=1, default=str)
     if not os.environ.get("VERIF_KEEP"):
         shutil.rmtree(ctx.work, ignore_errors=True)
